@@ -61,11 +61,12 @@ func genEightChar() {
 	for _, y := range sweepYears(20) {
 		days := daysOfYearList(y)
 		for i, dd := range days {
-			if tier != "thorough" && i%3 != rng.Intn(3) {
-				continue
-			}
 			y, m, d := dd.y, dd.m, dd.d
 			l0 := sol(y, m, d, 0, 0, 0).GetLunar()
+			// a third of the days, but always the days whose lunar year leads the civil year (a handful in years 15 and 18)
+			if tier != "thorough" && i%3 != rng.Intn(3) && l0.GetYear() <= y {
+				continue
+			}
 			for _, t := range timesFor(l0, y, m, d, 1) {
 				t := t
 				for _, sect := range []int{1, 2} {
@@ -82,6 +83,14 @@ func genEightChar() {
 					emit("yun", fmt.Sprintf("%d %d %d %d %d %d %d %d", y, m, d, t.h, t.mi, t.s, gender, sect), safe(func() string {
 						return yunStr(sol(y, m, d, t.h, t.mi, t.s).GetLunar().GetEightChar().GetYunBySect(gender, sect))
 					}))
+					// the same birth built through the lunar-date constructor: every fortune value must be the same
+					// (the object must carry the civil year's term table whatever the construction path)
+					if gender == 1 {
+						emit("yun", fmt.Sprintf("%d %d %d %d %d %d %d %d", y, m, d, t.h, t.mi, t.s, gender, sect), safe(func() string {
+							l := sol(y, m, d, t.h, t.mi, t.s).GetLunar()
+							return yunStr(calendar.NewLunar(l.GetYear(), l.GetMonth(), l.GetDay(), t.h, t.mi, t.s).GetEightChar().GetYunBySect(gender, sect))
+						}))
+					}
 				}
 			}
 		}
